@@ -99,6 +99,17 @@ CHECKS = {
     },
 }
 
+def ubsan_class(r):
+    """class of a UBSan finding: kind + innermost pomerol function (stable across runs, specific enough to tell findings apart)"""
+    u = r["ubsan"][0]
+    kind = u.split(":")[0]
+    m = re.search(r" in (\S+?)\(?[^ ]* (\S+)$", u)
+    fn = ""
+    m2 = re.search(r" in (.+) (/\S+:\d+)$", u)
+    if m2: fn = "::".join(re.sub(r"\(.*", "", m2.group(1)).split("::")[-2:]).replace("Pomerol::", "")
+    return "ubsan:%s%s" % (kind, ":" + fn if fn else "")
+
+
 def log(msg):
     sys.stderr.write("[run_check] %s\n" % msg); sys.stderr.flush()
 
@@ -185,15 +196,17 @@ def main():
     groups = collections.OrderedDict()
     for r in cand:
         cls = r["verdict"] if not (pid == "C17" and r["verdict"] == "ok") else "ubsan"
-        if pid == "C17" and r.get("ubsan") and not r["verdict"].startswith("asan"): cls = "ubsan:" + re.sub(r" at .*", "", r["ubsan"][0])[:60]
-        groups.setdefault((r["_part"], cls), []).append(r)
+        if pid == "C17" and r.get("ubsan") and not r["verdict"].startswith("asan"): cls = ubsan_class(r)
+        groups.setdefault(cls, []).append(r)
     replays, known_lines, new_violations = [], [], 0
-    for (pi, cls), rs in list(groups.items())[:6]:
+    for cls, rs in list(groups.items())[:8]:
+        pi = rs[0]["_part"]
+        rs = [r for r in rs if r["_part"] == pi] or rs
         part = spec["parts"][tier][pi]
         exe = exe_for(part, built)
         r0 = sorted(rs, key=lambda r: (P_of(r), len(r.get("cfg", ""))))[0] if all(r.get("cfg") for r in rs) else rs[0]
         first = vlib.run_single(exe, r0["seed"], want_choices=True)
-        cls_of = lambda r: ("ubsan:" + re.sub(r" at .*", "", r["ubsan"][0])[:60]) if (pid == "C17" and r.get("ubsan") and not r["verdict"].startswith("asan")) else r["verdict"]
+        cls_of = lambda r: ubsan_class(r) if (pid == "C17" and r.get("ubsan") and not r["verdict"].startswith("asan")) else r["verdict"]
         if cls_of(first) != cls:
             log("seed %s: class changed on re-execution (%s -> %s)" % (r0["seed"], cls, cls_of(first)))
             print("INCONCLUSIVE property=%s seed %s did not reproduce (%s vs %s)" % (pid, r0["seed"], cls, cls_of(first)))
@@ -209,7 +222,7 @@ def main():
             return 2
         k = vlib.match_known(known, cls, a.get("cfg", cfg_s), a.get("detail", ""))
         rp = dict(property=pid, harness=part["harness"], variant=part["variant"], complex=bool(part.get("complex")), seed=r0["seed"], cfg=a.get("cfg") or cfg_s,
-                  choices=choices, expect=dict(verdict=cls, hash=a["hash"]), detail=a.get("detail", ""), ubsan=a.get("ubsan", []),
+                  choices=choices, expect=dict(verdict=cls, hash=a["hash"]), detail=a.get("detail", "") or "; ".join(a.get("ubsan", [])[:2]), ubsan=a.get("ubsan", []),
                   original=dict(seed=r0["seed"], cfg=r0.get("cfg", ""), n_choices=len(first.get("choices") or [])), occurrences_in_batch=len(rs),
                   trace=a.get("trace", "")[-20000:], stderr=a.get("stderr", "")[-4000:] if cls != "ok" else "")
         path = os.path.join(VERIF, "replays", "%s-%s-%s.json" % (pid, part["harness"], r0["seed"]))
@@ -218,7 +231,7 @@ def main():
             known_lines.append("KNOWN-FINDING: property=%s %s [%s, %d runs, replay=%s]" % (pid, k["text"], cls, len(rs), path))
         else:
             new_violations += 1
-            replays.append((cls, path, a.get("detail", ""), len(rs)))
+            replays.append((cls, path, rp["detail"], len(rs)))
     wall = time.time() - t0
 
     # ---- evidence
